@@ -110,3 +110,71 @@ Ltac destr_spec :=
   | |- context [if ?x =? ?y then _ else _] =>
       let E := fresh "E" in destruct (x =? y) eqn:E; [apply Z.eqb_eq in E|apply Z.eqb_neq in E]
   end.
+
+(* ---- the common script ---- *)
+(* after [intros] of the statement's hypotheses: reduce to one goal per path, with the path
+   condition in the context *)
+Ltac sound_paths ps Hpc Hr :=
+  sound_start ps 200%nat Hpc Hr; clear Hr Hpc;
+  unfold rc_ok in *;
+  cbn [all_paths ps all_hold holds den sapk];
+  repeat lazymatch goal with |- _ /\ _ => split | |- True => exact Logic.I end;
+  intros.
+
+(* memory equations rewritten, range facts instantiated, quantified hypotheses cleared *)
+Ltac sound_mem m Hm Hrck :=
+  norm_addr; norm_constmod; rew_mem m;
+  pose_canon m Hm; norm_ind m; pose_rc m Hrck; pose_canon m Hm; clear Hm Hrck.
+Ltac sound_mem_norc m Hm :=
+  norm_addr; norm_constmod; rew_mem m; pose_canon m Hm; clear Hm.
+
+Ltac finish_lia := destr_spec; unfold P in *; repeat split; lia.
+
+(* ---- mod elimination (for the families whose arithmetic never wraps around P) ---- *)
+(* drop the (already substituted) equations of the ap cells *)
+Ltac clear_ap m s0 :=
+  repeat match goal with
+  | H : m (ap s0 + _) = _ |- _ => clear H
+  | H : m (ap s0) = _ |- _ => clear H
+  end.
+(* drop canonical-range facts of cells that occur nowhere else *)
+Ltac clear_unused_canon m :=
+  repeat match goal with
+  | H : 0 <= m ?a < P |- _ =>
+      lazymatch goal with |- context [m a] => fail | _ => idtac end;
+      revert H;
+      tryif (match goal with H' : context [m a] |- _ => idtac end)
+      then fail else intros _
+  end.
+(* innermost [e mod P] with 0 <= e < P becomes e *)
+Ltac no_mod e := lazymatch e with context [_ mod _] => fail | _ => idtac end.
+Lemma mul_bound A B x y : 0 <= x < A -> 0 <= y < B -> 0 <= x * y < A * B.
+Proof. intros Hx Hy. split; [apply Z.mul_nonneg_nonneg; lia|]. apply Z.mul_lt_mono_nonneg; lia. Qed.
+(* explicit bounds for the products occurring in [e] (lia treats a product as an atom) *)
+Ltac pose_prod x y :=
+  first
+  [ assert (0 <= x * y < 2 ^ 64 * 2 ^ 64) by (apply mul_bound; unfold P in *; lia)
+  | assert (0 <= x * y < 2 ^ 64 * 2 ^ 128) by (apply mul_bound; unfold P in *; lia)
+  | assert (0 <= x * y < 2 ^ 128 * 2 ^ 64) by (apply mul_bound; unfold P in *; lia)
+  | assert (0 <= x * y < 2 ^ 125 * 2 ^ 125) by (apply mul_bound; unfold P in *; lia)
+  | assert (0 <= x * y < 2 ^ 128 * 2 ^ 128) by (apply mul_bound; unfold P in *; lia) ].
+Ltac ensure_prods e :=
+  repeat match e with
+  | context [?x * ?y] =>
+      lazymatch goal with H : 0 <= x * y < _ |- _ => fail | _ => pose_prod x y end
+  end.
+Ltac small_tac := solve [unfold P in *; lia].
+Ltac elim_mods :=
+  repeat match goal with
+  | |- context [?e mod P] =>
+      no_mod e; ensure_prods e; rewrite (Z.mod_small e P) in * by small_tac
+  | H : context [?e mod P] |- _ =>
+      no_mod e; ensure_prods e; rewrite (Z.mod_small e P) in * by small_tac
+  end.
+
+Lemma divmod_bqr b q r : 0 <= r < b -> (b * q + r) / b = q /\ (b * q + r) mod b = r.
+Proof.
+  intros H. split.
+  - symmetry. apply Z.div_unique with r; [left; exact H|reflexivity].
+  - symmetry. apply Z.mod_unique with q; [left; exact H|reflexivity].
+Qed.
